@@ -20,7 +20,7 @@ EXPECTED_PROBES = ["c02-individuals-reevaluated", "c02-generations-redigested", 
 ASSUMPTIONS = ["the pure twin is the same pure-python function the tap wraps; equality is bitwise on float64",
                "the +-inf sentinel is accepted only if the tap above the cutoff layer recorded a refused request by the same deme for exactly that genome"]
 
-PROFILE = P.profile(p_cutoff=0.4, entry_w={"tree": 8, "hms": 1, "minimize": 1.5},
+PROFILE = P.profile(p_cutoff=0.4, p_no_elite=0.08, entry_w={"tree": 8, "hms": 1, "minimize": 1.5},
                     leaf_engines={"local": 4, "cma": 4})
 
 
